@@ -6,7 +6,7 @@ from typing import List, Tuple, Optional, Callable, Mapping, MutableMapping
 
 from pathlib import Path
 
-from urllib.parse import urlsplit, urlunsplit, quote, unquote
+from urllib.parse import urlsplit, urlunsplit, unquote
 
 from copy import deepcopy
 
@@ -196,7 +196,7 @@ def resolve_local_links(
         relative_path = href.relative(from_path, website_path)
 
         # Reconstitute the URL
-        return urlunsplit(parts._replace(path=quote(relative_path)))
+        return urlunsplit(parts._replace(path=relative_path))
 
     tree.rewrite_links(rewrite_link)
 
